@@ -521,3 +521,109 @@ def arm_bounds(fn, arm_head, nth=0):
         raise ExtractError(f"lost anchor in {fn.qual}: arm `{arm_head}` matched {len(ms)}x")
     open_ = ms[nth].end() - 1
     return open_, match_brace(fn.body, open_)
+
+
+# ====================================================================================================================
+# general iterator-chain normalisers (R5/R6): every closure BODY is kept verbatim; only the loop skeleton is generated
+# ====================================================================================================================
+_COLLECT = r'\s*\.(collect_vec\(\)|collect::<Vec<_>>\(\)|collect\(\))'
+
+
+def _closure_after(body, open_paren):
+    """(params, body_text, close_paren) of the closure that is the sole argument of the call whose '(' is at open_paren"""
+    close = match_brace(body, open_paren)
+    inner = body[open_paren + 1:close]
+    m = re.match(r'\s*(move\s+)?\|([^|]*)\|\s*', inner, flags=re.S)
+    if not m:
+        raise ExtractError('closure expected')
+    return m.group(2).strip(), inner[m.end():].strip().rstrip(',').strip(), close
+
+
+def unmap_iter_collect_general(f):
+    """R6: `VEC.iter().map(|P| BODY).collect*()`  and  `VEC.iter().enumerate().map(|(I, P)| BODY).collect*()`  -> loop pushing BODY.
+    P is `x` (binds `&VEC[i]`) or `&x` (binds `VEC[i]`, a copy)."""
+    n = 0
+    while True:
+        m = re.search(r'([\w.]+)\s*\.iter\(\)\s*(\.enumerate\(\)\s*)?\.map(\()', f.body)
+        if not m:
+            break
+        try:
+            params, cbody, close = _closure_after(f.body, m.start(3))
+        except ExtractError:
+            break
+        m2 = re.match(_COLLECT, f.body[close + 1:])
+        if not m2:
+            break
+        vec, enum = m.group(1), bool(m.group(2))
+        k = f'm{n}_'
+        if enum:
+            pm = re.match(r'\(\s*(\w+)\s*,\s*(&?)\s*(\w+)\s*\)$', params)
+            if not pm:
+                break
+            idx, amp, name = pm.group(1), pm.group(2), pm.group(3)
+            bind = f'let {name} = {"" if amp else "&"}{vec}[{idx}];'
+            head = f'for {idx} in 0..{vec}.len()'
+        else:
+            pm = re.match(r'(&?)\s*(\w+)$', params)
+            if not pm:
+                break
+            amp, name = pm.group(1), pm.group(2)
+            bind = f'let {name} = {"" if amp else "&"}{vec}[{k}];'
+            head = f'for {k} in 0..{vec}.len()'
+        new = f'{{ let mut v_{k} = Vec::new(); {head} {{ {bind} let x_{k} = {cbody}; v_{k}.push(x_{k}); }} v_{k} }}'
+        f.body = f.body[:m.start()] + new + f.body[close + 1 + m2.end():]
+        n += 1
+    if n:
+        f.rewrites.append(('R6', f'{n}x `VEC.iter()[.enumerate()].map(|P| BODY).collect*()` -> loop pushing BODY', ''))
+    return f
+
+
+def unrange_map_collect_general(f):
+    """R6: `(LO..HI).map(|i| BODY).collect*()` -> loop pushing BODY"""
+    n = 0
+    while True:
+        m = re.search(r'\((\w+)\.\.([\w.()]+)\)\s*\.map(\()', f.body)
+        if not m:
+            break
+        try:
+            params, cbody, close = _closure_after(f.body, m.start(3))
+        except ExtractError:
+            break
+        m2 = re.match(_COLLECT, f.body[close + 1:])
+        if not m2 or not re.match(r'\w+$', params):
+            break
+        k = f'r{n}_'
+        new = f'{{ let mut v_{k} = Vec::new(); for {params} in {m.group(1)}..{m.group(2)} {{ let x_{k} = {cbody}; v_{k}.push(x_{k}); }} v_{k} }}'
+        f.body = f.body[:m.start()] + new + f.body[close + 1 + m2.end():]
+        n += 1
+    if n:
+        f.rewrites.append(('R6', f'{n}x `(LO..HI).map(|i| BODY).collect*()` -> loop pushing BODY', ''))
+    return f
+
+
+def unenumerate_filter_fold(f):
+    """R6: `VEC.iter().enumerate().filter(|&(J, _)| COND).fold(INIT, |ACC, (_, &X)| BODY)` -> `{ let mut ACC = INIT; for J in 0..VEC.len() { let X = VEC[J]; if COND { ACC = BODY; } } ACC }`"""
+    n = 0
+    while True:
+        m = re.search(r'([\w.]+)\s*\.iter\(\)\s*\.enumerate\(\)\s*\.filter(\()', f.body)
+        if not m:
+            break
+        params, cond, close = _closure_after(f.body, m.start(2))
+        pm = re.match(r'&\(\s*(\w+)\s*,\s*_\s*\)$', params)
+        m2 = re.match(r'\s*\.fold(\()', f.body[close + 1:])
+        if not pm or not m2:
+            break
+        fopen = close + 1 + m2.start(1)
+        fclose = match_brace(f.body, fopen)
+        inner = f.body[fopen + 1:fclose]
+        mi = re.match(r'\s*(.*?),\s*\|\s*(\w+)\s*,\s*\(\s*_\s*,\s*(&?)\s*(\w+)\s*\)\s*\|\s*(.*)$', inner, flags=re.S)
+        if not mi:
+            break
+        init, acc, amp, x, body = mi.group(1).strip(), mi.group(2), mi.group(3), mi.group(4), mi.group(5).strip().rstrip(',').strip()
+        j, vec = pm.group(1), m.group(1)
+        new = f'{{ let mut {acc} = {init}; for {j} in 0..{vec}.len() {{ let {x} = {"" if amp else "&"}{vec}[{j}]; if {cond} {{ {acc} = {body}; }} }} {acc} }}'
+        f.body = f.body[:m.start()] + new + f.body[fclose + 1:]
+        n += 1
+    if n:
+        f.rewrites.append(('R6', f'{n}x `VEC.iter().enumerate().filter(|&(j, _)| COND).fold(INIT, |acc, (_, &x)| BODY)` -> guarded accumulation loop', ''))
+    return f
